@@ -43,6 +43,7 @@ type Ctx struct {
 	CoverNeed   map[string]bool
 	scratch     []string
 	validating  int
+	suppressed  int
 }
 
 func (c *Ctx) Thorough() bool { return c.Tier == "thorough" }
@@ -198,8 +199,14 @@ func (c *Ctx) RunSym(job SymJob) *gosym.Report {
 			continue
 		}
 		seen[key] = true
-		if len(seen) > 3 {
-			continue // same harness, more keys: already reported enough to act on
+		c.mu.Lock()
+		enough := len(c.Violations) >= 6
+		if enough {
+			c.suppressed++
+		}
+		c.mu.Unlock()
+		if len(seen) > 3 || enough {
+			continue // already reported enough to act on
 		}
 		if job.pre != nil {
 			job.pre()
